@@ -243,6 +243,8 @@ class MainResult:
         self.raw = None
         self.controller = None
         self.conn_manager = None
+        self.main_error = None
+        self.main_error_tb = None
 
 
 def run_main(argv, data, chunks, script=('quit',), on_read=None, interrupt_at=None, stdin_errors='strict',
@@ -298,6 +300,13 @@ def run_main(argv, data, chunks, script=('quit',), on_read=None, interrupt_at=No
             rec.add('exit', res.exit_code)
         except (HarnessError, SimDeadlock):
             raise
+        except RuntimeError as e:
+            # what __main__ does: logging.error(e); exit(1)
+            import traceback
+            res.main_error = str(e)
+            res.main_error_tb = traceback.format_exc()
+            res.exit_code = 1
+            rec.add('main-error', str(e))
         except BaseException as e:  # noqa: the whole point is to see what escapes
             import traceback
             res.exception = e
